@@ -90,6 +90,13 @@ def bases(tier):
                                                           ["creator", None, {}, [["individualName", None, {}, [["surName", txt, {}, []]]]]],
                                                           ["abstract", txt, {}, [["para", txt, {}, []]]]]])
         out.append((f"special:{i}", gtree.assign_ids(g), 3))
+    # repeated siblings of which the first ones are leaves and a later one has content below it
+    out.append(("siblings:leaf-first", gtree.assign_ids(from_listspec(
+        ["dataset", None, {}, [["creator", None, {}, []],
+                               ["creator", None, {}, [["individualName", None, {}, [["surName", "x", {}, []]]]]],
+                               ["creator", None, {}, []],
+                               ["creator", None, {}, [["individualName", None, {}, []], ["individualName", None, {}, [["surName", "y", {}, []]]]]],
+                               ["title", "t", {}, []]]])), 3))
     # invalid trees (validators take their error branches)
     out.append(("invalid:unknown", gtree.assign_ids(from_listspec(
         ["dataset", "oops", {"zz": "1"}, [["zzUnknown", "x", {}, [["title", None, {}, []]]], ["title", None, {}, []],
@@ -266,10 +273,27 @@ def op_find_descendants(c):
     return out
 
 
+def _real_paths(n, maxlen=3, cap=40):
+    """the distinct name paths of length <= maxlen that exist below n (document order, capped)"""
+    out = []
+
+    def rec(x, pre):
+        for ch in x.children:
+            p = pre + [ch.name]
+            if p not in out:
+                out.append(p)
+            if len(p) < maxlen:
+                rec(ch, p)
+    rec(n, [])
+    return out[:cap]
+
+
 def op_paths(c):
     out = []
-    paths = [None, []] + [[a] for a in c.names] + [[a, b] for a in c.names[:4] for b in c.names[:4]]
+    paths0 = [None, []] + [[a] for a in c.names] + [[a, b] for a in c.names[:4] for b in c.names[:4]]
     for n in c.nodes[:40]:
+        real = _real_paths(n)
+        paths = paths0 + [p for p in real if p not in paths0] + [p + ["zzNoSuchName"] for p in real[:6]]
         for p in paths:
             s = n.find_single_node_by_path(p)
             out.append((s.id if s is not None else None, _ids(n.find_all_nodes_by_path(p))))
